@@ -1,6 +1,6 @@
 //@ unit env_caches
 //@ serves C16
-//@ must_verify OpPointer::new OpPointer::set_path Ops::new Ops::entry Entry::get_pointer_or_else Checker::new Checker::with_working_dir Checker::with_shape_cache Checker::result Environment::get_ops_for_path Environment::add_ops_for_path_and_content Environment::get_cached_path_val Environment::update_path_val Environment::get_out_lock_for_path Environment::set_out_lock_for_path Environment::reset_out_lock_for_path
+//@ must_verify OpPointer::new OpPointer::set_path Ops::new Ops::entry Entry::get_pointer_or_else Checker::new Checker::with_working_dir Checker::with_shape_cache Checker::result Environment::get_ops_for_path Environment::add_ops_for_path_and_content Environment::get_cached_path_val Environment::update_path_val Environment::get_out_lock_for_path Environment::set_out_lock_for_path Environment::reset_out_lock_for_path lemma_lookup_is_a_fresh_computation lemma_stdlib_entry_is_fresh lemma_order_independent lemma_idempotent lemma_failure_leaves_no_trace lemma_value_cache_and_locks_are_exact
 //@ include prelude/head.rs
 use std::rc::Rc;
 
@@ -15,27 +15,7 @@ impl Position {
 
 //@ include prelude/env_caches_world.rs
 
-// ---------- errors: only constructed, converted and propagated here (R5); message text dropped (R1) ----------
-#[verifier::external_body]
-pub struct Error { _p: u8 }
-impl Error {
-    #[verifier::external_body]
-    pub fn new(msg: String, pos: Position) -> Self { unimplemented!() }
-}
-// crate::error::BuildError without its `cause: Option<Box<dyn Error>>` (dyn; never read by the code under contract)
-pub struct BuildError {
-    pub err_type: ErrorType,
-    pub pos: Option<Position>,
-    pub msg: String,
-}
-impl From<IoError> for Error {
-    #[verifier::external_body]
-    fn from(e: IoError) -> (r: Error) { unimplemented!() }
-}
-impl From<BuildError> for Error {
-    #[verifier::external_body]
-    fn from(e: BuildError) -> (r: Error) { unimplemented!() }
-}
+//@ include prelude/env_caches_front.rs
 
 // ---------- opcode/pointer.rs: the handle handed out for a compiled file ----------
 //@ extract src/build/opcode/pointer.rs :: struct OpPointer
@@ -126,22 +106,6 @@ pub mod cache {
 // ---------- the front end behind a cache miss: parser, type checker, translator (R8: outside the unit) ----------
 // Each stage is an UNINTERPRETED function of what it is handed; what is verified is how the code under contract
 // composes them (which path is read, in which order, how failures propagate) - `compile` below.
-pub struct OffsetStrIter<'a> { pub text: Ghost<Seq<char>>, pub file: Ghost<Option<Seq<char>>>, pub _p: core::marker::PhantomData<&'a u8> }
-impl<'a> OffsetStrIter<'a> {
-    #[verifier::external_body]
-    pub fn new(input: &'a str) -> (r: Self) ensures r.text@ == input@, r.file@ is None { unimplemented!() }
-    #[verifier::external_body]
-    pub fn with_src_file<Q: vinto::VIntoPathBuf>(self, file: Q) -> (r: Self)
-        ensures r.text@ == self.text@, r.file@ == Some(file.pview())
-    { unimplemented!() }
-}
-// crate::parse::parse: the statements of a source text (None: a syntax error); the file name only labels positions
-pub uninterp spec fn spec_parse(text: Seq<char>, file: Option<Seq<char>>) -> Option<Seq<Statement>>;
-#[verifier::external_body]
-pub fn parse<'a>(input: OffsetStrIter<'a>, comment_map: Option<&mut CommentMap>) -> (r: Result<Vec<Statement>, BuildError>)
-    ensures match spec_parse(input.text@, input.file@) { Some(s) => r matches Ok(v) && v@ == s, None => r is Err }
-{ unimplemented!() }
-
 // opcode/translate.rs AST::translate: a function of (statements, directory of the file)
 pub uninterp spec fn spec_translate(stmts: Seq<Statement>, root: Seq<char>) -> OpsMap;
 pub mod translate {
@@ -159,83 +123,11 @@ impl OpsMap {
     pub fn new() -> Self { unimplemented!() }
 }
 
-// ---------- ast/typecheck: the Checker as the Environment drives it ----------
-pub type ShapeCache = Rc<RefCell<BTreeMap<PathBuf, Shape>>>;
-impl<T> RefCell<T> {
-    #[verifier::external_body]
-    pub fn new(t: T) -> Self { unimplemented!() }
-}
-//@ extract src/ast/typecheck/mod.rs :: struct Checker
-//@   rule R0 RV
-//@ end
-// what a Checker is, up to the identity of its containers
-pub struct CkState {
-    pub symbols: Map<Seq<char>, Shape>,
-    pub errs: Seq<BuildError>,
-    pub shapes: Seq<Shape>,
-    pub depth: usize,
-    pub strict: bool,
-    pub dir: Option<Seq<char>>,
-    pub cache: ShapeCache,
-    pub istack: Seq<Seq<char>>,
-}
-pub open spec fn path_texts(s: Seq<PathBuf>) -> Seq<Seq<char>> { Seq::new(s.len(), |k: int| s[k]@) }
-impl Checker {
-    pub open spec fn st(self) -> CkState {
-        CkState {
-            symbols: self.symbol_table@, errs: self.err_stack@, shapes: self.shape_stack@, depth: self.nested_depth,
-            strict: self.strict, dir: match self.working_dir { Some(d) => Some(d@), None => None },
-            cache: self.shape_cache, istack: path_texts(self.import_stack@),
-        }
-    }
-}
-// the state `Checker::new().with_working_dir(root).with_shape_cache(cache)` is in
-pub open spec fn root_checker(root: Seq<char>, cache: ShapeCache) -> CkState {
-    CkState {
-        symbols: Map::empty(), errs: Seq::empty(), shapes: Seq::empty(), depth: 0, strict: true, dir: Some(root),
-        cache: cache, istack: path_texts(Seq::empty()),
-    }
-}
-//@ extract src/ast/typecheck/mod.rs :: impl Checker :: fn new
-//@   ret r
-//@   sig <<<
-        ensures
-            r.symbol_table@ =~= Map::<Seq<char>, Shape>::empty(), r.err_stack@ =~= Seq::<BuildError>::empty(),
-            r.shape_stack@ =~= Seq::<Shape>::empty(), r.nested_depth == 0, r.strict, r.working_dir is None,
-            r.import_stack@ =~= Seq::<PathBuf>::empty(),
-//@   >>>
-//@ end
-//@ extract src/ast/typecheck/mod.rs :: impl Checker :: fn with_working_dir
-//@   rule R4
-//@   subst "P: Into<PathBuf>>" => "P: vinto::VIntoPathBuf>"
-//@   ret r
-//@   sig <<<
-        ensures r.st() == (CkState { dir: Some(dir.pview()), ..self.st() })
-//@   >>>
-//@ end
-//@ extract src/ast/typecheck/mod.rs :: impl Checker :: fn with_shape_cache
-//@   rule R4
-//@   ret r
-//@   sig <<<
-        ensures r.st() == (CkState { cache: cache, ..self.st() })
-//@   >>>
-//@ end
-//@ extract src/ast/typecheck/mod.rs :: impl Checker :: fn result
-//@   ret r
-//@   sig <<<
-        ensures match r {
-            Ok(t) => self.err_stack@.len() == 0 && t == self.symbol_table,
-            Err(e) => self.err_stack@.len() > 0 && e == self.err_stack@[0],
-        }
-//@   >>>
-//@ end
-
 // Walker::walk_statement_list (ast/walk.rs) driving the Checker's visitor over a file (R8: the whole type checker).
 // ASSUMED: a function of (the checker's state, the statements); it may rewrite the statements.
 // NOT MODELLED HERE: that the checker reads and fills the shared shape cache behind `cache` (interior mutability).
 // The outcome is assumed not to depend on what the cell holds - that is the coherence of the shape cache, whose
 // one-step kernel is the contract of Checker::resolve_import below; the induction over the import graph is not done.
-pub uninterp spec fn spec_walk(c: CkState, stmts: Seq<Statement>) -> (CkState, Seq<Statement>);
 impl Checker {
     #[verifier::external_body]
     pub fn walk_statement_list(&mut self, stmts: &mut Vec<Statement>)
@@ -304,6 +196,7 @@ pub open spec fn rest_frame(a: Environment, b: Environment) -> bool {
 //@   body_start <<<
         broadcast use clax::group_clone_axioms;
 //@   >>>
+//@   mutant value_lookup_ignores_the_key "self.val_cache.get(&path).cloned()" => "match self.val_cache.first_key_value() { Some(kv) => Some(kv.1.clone()), None => None }" expect get_cached_path_val
 //@ end
 //@ extract src/build/opcode/environment.rs :: impl * Environment<Stdout, Stderr> :: fn update_path_val
 //@   impl_header impl Environment
@@ -316,6 +209,7 @@ pub open spec fn rest_frame(a: Environment, b: Environment) -> bool {
 //@   body_start <<<
         broadcast use clax::group_clone_axioms;
 //@   >>>
+//@   mutant value_not_overwritten "self.val_cache.insert(path.clone(), val);" => "if self.val_cache.get(&path).is_none() { self.val_cache.insert(path.clone(), val); }" expect update_path_val
 //@ end
 //@ extract src/build/opcode/environment.rs :: impl * Environment<Stdout, Stderr> :: fn get_out_lock_for_path
 //@   impl_header impl Environment
@@ -324,6 +218,7 @@ pub open spec fn rest_frame(a: Environment, b: Environment) -> bool {
 //@   sig <<<
         ensures r == self.out_lock@.contains(path.pview())
 //@   >>>
+//@   mutant lock_never_seen "self.out_lock.contains(path.as_ref())" => "{ let _ = path.as_ref(); false }" expect get_out_lock_for_path
 //@ end
 //@ extract src/build/opcode/environment.rs :: impl * Environment<Stdout, Stderr> :: fn set_out_lock_for_path
 //@   impl_header impl Environment
@@ -334,6 +229,7 @@ pub open spec fn rest_frame(a: Environment, b: Environment) -> bool {
             final(self).op_cache == old(self).op_cache, final(self).shape_cache == old(self).shape_cache,
             final(self).val_cache == old(self).val_cache, rest_frame(*old(self), *final(self)),
 //@   >>>
+//@   mutant lock_taken_under_another_path "self.out_lock.insert(path.into());" => "let _ = path.into(); self.out_lock.insert(PathBuf::from(\"/dev/stdout\"));" expect set_out_lock_for_path
 //@ end
 //@ extract src/build/opcode/environment.rs :: impl * Environment<Stdout, Stderr> :: fn reset_out_lock_for_path
 //@   impl_header impl Environment
@@ -344,6 +240,7 @@ pub open spec fn rest_frame(a: Environment, b: Environment) -> bool {
             final(self).op_cache == old(self).op_cache, final(self).shape_cache == old(self).shape_cache,
             final(self).val_cache == old(self).val_cache, rest_frame(*old(self), *final(self)),
 //@   >>>
+//@   mutant reset_releases_every_lock "self.out_lock.remove(path.as_ref());" => "let _ = path.as_ref(); self.out_lock.clear();" expect reset_out_lock_for_path
 //@ end
 
 // THE CONTRACT of a lookup in the opcode cache through the environment: the cache contract for the slot `path`, the
@@ -372,7 +269,165 @@ pub open spec fn ops_post(e0: Environment, e1: Environment, path: Seq<char>, r: 
 //@   after "get_pointer_or_else( ||" <<<
             -> (res: Result<OpsMap, Error>) ensures yields(compile(sc0, key), res)
 //@   >>>
+//@   mutant one_slot_for_all_files "self.op_cache.entry(path.clone())" => "self.op_cache.entry(PathBuf::from(\"main.ucg\"))" expect get_ops_for_path
+//@   mutant reads_another_file "File::open(&p)" => "File::open(&root.to_path_buf())" expect get_ops_for_path
+//@   mutant positions_unlabelled "OffsetStrIter::new(&contents).with_src_file(&p)" => "OffsetStrIter::new(&contents)" expect get_ops_for_path
+//@   mutant checker_without_working_dir ".with_working_dir(root)" => "" expect get_ops_for_path
+//@   mutant type_errors_ignored "return Err(Error::new( format!(\"Type error: {}\", type_err.msg).into(), pos, ));" => "" expect get_ops_for_path
 //@ end
+
+// the standard library is compiled from embedded text under its `std/...` NAME (no file is read, no type check)
+pub open spec fn add_post(e0: Environment, e1: Environment, path: Seq<char>, text: Seq<char>, r: Result<(), Error>) -> bool {
+    let m0 = e0.op_cache.ops@;
+    let m1 = e1.op_cache.ops@;
+    &&& if m0.contains_key(path) {
+            // the name is taken: nothing is compiled, nothing changes
+            r is Ok && m1 =~= m0
+        } else {
+            match compile_text(path, text) {
+                Some(o) => r is Ok && m1.contains_key(path) && *m1[path] == o && m1 =~= m0.insert(path, m1[path]),
+                None => r is Err && m1 =~= m0,
+            }
+        }
+    &&& e1.val_cache == e0.val_cache && e1.shape_cache == e0.shape_cache && e1.out_lock == e0.out_lock
+    &&& rest_frame(e0, e1)
+}
+//@ extract src/build/opcode/environment.rs :: impl * Environment<Stdout, Stderr> :: fn add_ops_for_path_and_content
+//@   impl_header impl Environment
+//@   rule R1
+//@   subst "P: Into<PathBuf> + Clone," => "P: vinto::VIntoPathBuf + Clone,"
+//@   ret r
+//@   sig <<<
+        ensures add_post(*old(self), *final(self), path.pview(), contents@, r)
+//@   >>>
+//@   body_start <<<
+        broadcast use vinto::axiom_cloned_pview;
+        let ghost key = path.pview();
+//@   >>>
+//@   after "get_pointer_or_else( ||" <<<
+            -> (res: Result<OpsMap, Error>) ensures yields(compile_text(key, contents@), res)
+//@   >>>
+//@   mutant stdlib_positions_unlabelled "OffsetStrIter::new(contents).with_src_file(&p)" => "OffsetStrIter::new(contents)" expect add_ops_for_path_and_content
+//@ end
+}
+
+// ---------- what C16 needs from these contracts ----------
+use environment::*;
+
+// the embedded standard library (build/stdlib.rs get_libs(), generated at build time): name -> source text
+pub uninterp spec fn stdlib_src(name: Seq<char>) -> Option<Seq<char>>;
+
+// what a FRESH computation for the key `p` yields in an environment whose shape-cache cell is `sc`
+pub open spec fn fresh(sc: ShapeCache, p: Seq<char>) -> Option<OpsMap> {
+    match stdlib_src(p) { Some(text) => compile_text(p, text), None => compile(sc, p) }
+}
+// cache coherence: every entry is what a fresh computation for ITS key yields
+pub open spec fn entries_fresh(e: Environment) -> bool {
+    forall|p: Seq<char>| #[trigger] e.op_cache.ops@.contains_key(p) ==> fresh(e.shape_cache, p) == Some(*e.op_cache.ops@[p])
+}
+// ... and the library names are taken (what populate_stdlib establishes in Environment::new_with_vars)
+pub open spec fn coherent(e: Environment) -> bool {
+    &&& entries_fresh(e)
+    &&& forall|p: Seq<char>| #[trigger] stdlib_src(p) is Some ==> e.op_cache.ops@.contains_key(p)
+}
+pub open spec fn same_outcome(a: Result<OpPointer, Error>, b: Result<OpPointer, Error>) -> bool {
+    match (a, b) {
+        (Ok(x), Ok(y)) => *x.pos_map == *y.pos_map && x.ptr == y.ptr && x.path == y.path,
+        (Err(_), Err(_)) => true,
+        _ => false,
+    }
+}
+
+// (L0) "every cache lookup returns exactly what a fresh computation for the same key would return", and the
+// invariant is kept - hit or miss, success or failure.
+pub proof fn lemma_lookup_is_a_fresh_computation(e0: Environment, e1: Environment, p: Seq<char>, r: Result<OpPointer, Error>)
+    requires coherent(e0), ops_post(e0, e1, p, r),
+    ensures
+        coherent(e1),
+        match fresh(e0.shape_cache, p) { Some(o) => r matches Ok(ptr) && *ptr.pos_map == o, None => r is Err },
+{
+    let m0 = e0.op_cache.ops@;
+    let m1 = e1.op_cache.ops@;
+    if stdlib_src(p) is Some { assert(m0.contains_key(p)); }
+    assert forall|k: Seq<char>| #[trigger] m1.contains_key(k) implies fresh(e1.shape_cache, k) == Some(*m1[k]) by {
+        if k != p || m0.contains_key(p) { assert(m0.contains_key(k)); }
+    }
+    assert forall|k: Seq<char>| #[trigger] stdlib_src(k) is Some implies m1.contains_key(k) by {
+        assert(m0.contains_key(k));
+    }
+}
+
+// a library module registered under its name keeps the entries fresh
+pub proof fn lemma_stdlib_entry_is_fresh(e0: Environment, e1: Environment, name: Seq<char>, text: Seq<char>, r: Result<(), Error>)
+    requires entries_fresh(e0), stdlib_src(name) == Some(text), add_post(e0, e1, name, text, r),
+    ensures entries_fresh(e1), r is Ok ==> e1.op_cache.ops@.contains_key(name),
+{
+    let m0 = e0.op_cache.ops@;
+    let m1 = e1.op_cache.ops@;
+    assert forall|k: Seq<char>| #[trigger] m1.contains_key(k) implies fresh(e1.shape_cache, k) == Some(*m1[k]) by {
+        if k != name || m0.contains_key(name) { assert(m0.contains_key(k)); }
+    }
+}
+
+// (L1) order independence: two different files looked up in either order - the same outcomes, the same cache.
+pub proof fn lemma_order_independent(
+    e0: Environment, p: Seq<char>, q: Seq<char>,
+    ea: Environment, eab: Environment, rp1: Result<OpPointer, Error>, rq1: Result<OpPointer, Error>,
+    eb: Environment, eba: Environment, rq2: Result<OpPointer, Error>, rp2: Result<OpPointer, Error>,
+)
+    requires
+        p != q,
+        ops_post(e0, ea, p, rp1), ops_post(ea, eab, q, rq1),     // p then q
+        ops_post(e0, eb, q, rq2), ops_post(eb, eba, p, rp2),     // q then p
+    ensures
+        same_outcome(rp1, rp2), same_outcome(rq1, rq2),
+        eab.op_cache.ops@.dom() =~= eba.op_cache.ops@.dom(),
+        forall|k: Seq<char>| #[trigger] eab.op_cache.ops@.contains_key(k) ==> *eab.op_cache.ops@[k] == *eba.op_cache.ops@[k],
+        eab.val_cache == eba.val_cache && eab.shape_cache == eba.shape_cache && eab.out_lock == eba.out_lock,
+{
+    let m0 = e0.op_cache.ops@;
+    assert(ea.op_cache.ops@.contains_key(q) <==> m0.contains_key(q));
+    assert(eb.op_cache.ops@.contains_key(p) <==> m0.contains_key(p));
+}
+
+// (L2) idempotence: a second lookup of the same file hands out the very same compiled file and changes nothing.
+pub proof fn lemma_idempotent(
+    e0: Environment, e1: Environment, e2: Environment, p: Seq<char>, r1: Result<OpPointer, Error>, r2: Result<OpPointer, Error>,
+)
+    requires ops_post(e0, e1, p, r1), r1 is Ok, ops_post(e1, e2, p, r2),
+    ensures
+        r2 matches Ok(b) && b.pos_map == r1->Ok_0.pos_map && b.ptr == r1->Ok_0.ptr && b.path == r1->Ok_0.path,
+        e2.op_cache.ops@ =~= e1.op_cache.ops@,
+{
+    assert(e1.op_cache.ops@.contains_key(p));
+}
+
+// (L3) a failed lookup leaves no trace: whatever is looked up next behaves as if the failing file had never been tried.
+pub proof fn lemma_failure_leaves_no_trace(
+    e0: Environment, e1: Environment, p: Seq<char>, r1: Result<OpPointer, Error>,
+    q: Seq<char>, e2: Environment, r2: Result<OpPointer, Error>,
+)
+    requires ops_post(e0, e1, p, r1), r1 is Err,
+    ensures
+        e1.op_cache.ops@ =~= e0.op_cache.ops@,
+        !e1.op_cache.ops@.contains_key(p),
+        ops_post(e1, e2, q, r2) <==> ops_post(e0, e2, q, r2),
+{
+}
+
+// the value cache and the output locks are plain maps/sets: what was stored under a key is what is found under it,
+// and under it only
+pub proof fn lemma_value_cache_and_locks_are_exact(
+    vals: Map<Seq<char>, Rc<Value>>, p: Seq<char>, q: Seq<char>, v: Rc<Value>, locks: Set<Seq<char>>,
+)
+    requires p != q,
+    ensures
+        vals.insert(p, v).contains_key(p) && vals.insert(p, v)[p] == v,
+        vals.insert(p, v).contains_key(q) == vals.contains_key(q),
+        vals.contains_key(q) ==> vals.insert(p, v)[q] == vals[q],
+        locks.insert(p).contains(p), locks.insert(p).contains(q) == locks.contains(q),
+        !locks.remove(p).contains(p), locks.remove(p).contains(q) == locks.contains(q),
+{
 }
 
 } // verus!
